@@ -4,6 +4,7 @@ normalisers of the heat-bath exit choice, the cumulative pick, preservation of s
 well-formedness / positivity of matrix elements by every vertex visit.
 -/
 import QmcModel.Loop
+import QmcProofs.CommonRand
 import Mathlib.Tactic.Ring
 import Mathlib.Tactic.Linarith
 import Mathlib.Tactic.NormNum
@@ -241,15 +242,7 @@ theorem pickIdx_total (ws : List Rat) (hw : ∀ x ∈ ws, 0 ≤ x) (c : Rat) (hc
 
 /-! ### draws -/
 
-theorem genRangeF_nonneg (s : RS) (t : Rat) : 0 ≤ (s.genRangeF t).1 := by
-  unfold RS.genRangeF
-  split
-  · simp
-  · rename_i ht
-    have ht' : 0 < t := not_le.mp ht
-    simp only
-    apply mul_nonneg _ (le_of_lt ht')
-    apply div_nonneg <;> exact_mod_cast Nat.zero_le _
+/-! `genRangeF_nonneg` is in QmcProofs/CommonRand.lean -/
 
 /-! ### invariants of one vertex visit -/
 
